@@ -136,31 +136,27 @@ pub(crate) fn recursive_anchor_in_progress(id: usize) -> bool {
 }
 
 pub(crate) fn store_rc<T: Any>(id: usize, rc: Rc<T>) {
-    STATE.with(|state| {
-        let mut s = state.borrow_mut();
-        s.store.rc.insert(id, rc);
-    });
+    // A replaced entry is dropped after the borrow is released (see `with_document_scope`).
+    let replaced = STATE.with(|state| state.borrow_mut().store.rc.insert(id, rc));
+    drop(replaced);
 }
 
 pub(crate) fn store_arc<T: Any + Send + Sync>(id: usize, arc: Arc<T>) {
-    STATE.with(|state| {
-        let mut s = state.borrow_mut();
-        s.store.arc.insert(id, arc);
-    });
+    // A replaced entry is dropped after the borrow is released (see `with_document_scope`).
+    let replaced = STATE.with(|state| state.borrow_mut().store.arc.insert(id, arc));
+    drop(replaced);
 }
 
 pub(crate) fn store_rc_recursive<T: Any>(id: usize, rc: Rc<T>) {
-    STATE.with(|state| {
-        let mut s = state.borrow_mut();
-        s.store.rc_recursive.insert(id, rc);
-    });
+    // A replaced entry is dropped after the borrow is released (see `with_document_scope`).
+    let replaced = STATE.with(|state| state.borrow_mut().store.rc_recursive.insert(id, rc));
+    drop(replaced);
 }
 
 pub(crate) fn store_arc_recursive<T: Any + Send + Sync>(id: usize, arc: Arc<T>) {
-    STATE.with(|state| {
-        let mut s = state.borrow_mut();
-        s.store.arc_recursive.insert(id, arc);
-    });
+    // A replaced entry is dropped after the borrow is released (see `with_document_scope`).
+    let replaced = STATE.with(|state| state.borrow_mut().store.arc_recursive.insert(id, arc));
+    drop(replaced);
 }
 
 pub(crate) fn get_rc<T: Any>(id: usize) -> Result<Option<Rc<T>>, String> {
@@ -244,7 +240,10 @@ pub(crate) fn with_document_scope<R>(f: impl FnOnce() -> R) -> R {
     impl Drop for RestoreGuard {
         fn drop(&mut self) {
             if let Some(prev) = self.0.take() {
-                STATE.with(|state| *state.borrow_mut() = prev);
+                // Take the document's own state out under the borrow and drop it afterwards: it may
+                // hold the last reference to a user value, whose `Drop` may call into this crate.
+                let ended = STATE.with(|state| std::mem::replace(&mut *state.borrow_mut(), prev));
+                drop(ended);
             }
         }
     }
